@@ -45,13 +45,29 @@ pub fn check_event(&self, event: &Event, _priority: Priority, env: &mut IEnv) ->
         // a single-path event passes unless the walk over the ignore files of its ancestor directories ends in an in-scope ignore
         event.path_tags@.len() == 1 ==> walk_ok(event.path_tags@[0].0, event.path_tags@[0].1 == Some(FileType::Dir), cur(final(env)), verdict_of(cur(final(env)), event.path_tags@[0].0, event.path_tags@[0].1 == Some(FileType::Dir)))
             && r == Ok::<bool, RuntimeError>(!ignored(verdict_of(cur(final(env)), event.path_tags@[0].0, event.path_tags@[0].1 == Some(FileType::Dir)), event.path_tags@[0].0)), // OBL:C03.check_event.single_path_verdict
+        // any number of paths: each path's verdict comes from a complete walk over the stored ignore files, and the event's verdict is their left-to-right
+        // fold (an in-scope ignore rejects, a negated match re-admits, anything else keeps the verdict so far)
+        event_passes_by_fold(&self.0, event.path_tags@, r->Ok_0), // OBL:C03+C11.check_event.multi_path_verdict_is_the_fold_of_the_per_path_verdicts
 //@ loop 0 iter=vx_it
 let ghost vx_tags = event.path_tags@;
+let ghost mut walks: Seq<Seq<Asked>> = Seq::empty();
 invariant
+    walks.len() == vx_it.index@,
+    forall|i: int| 0 <= i < vx_it.index@ ==> full_walk(&self.0, (#[trigger] vx_tags[i]).0, tag_is_dir(vx_tags[i]), walks[i]), // OBL:C03+C11.check_event.multi_path_verdict_is_the_fold_of_the_per_path_verdicts
+    pass == fold_pass(vx_tags, walks, vx_it.index@), // OBL:C03+C11.check_event.multi_path_verdict_is_the_fold_of_the_per_path_verdicts
     wf_filter(&self.0), vx_tags == event.path_tags@, vx_it.seq() == vx_tags, 0 <= vx_it.index@ <= vx_tags.len(),
     vx_it.index@ == 0 ==> pass, // OBL:C03.check_event.inv_starts_passing
     vx_it.index@ == 1 ==> walk_ok(vx_tags[0].0, vx_tags[0].1 == Some(FileType::Dir), cur(env), verdict_of(cur(env), vx_tags[0].0, vx_tags[0].1 == Some(FileType::Dir)))
         && pass == !ignored(verdict_of(cur(env), vx_tags[0].0, vx_tags[0].1 == Some(FileType::Dir)), vx_tags[0].0), // OBL:C03.check_event.inv_first_path_verdict
+body_end:
+proof {
+    let ghost w0 = walks;
+    walks = walks.push(cur(env));
+    assert(forall|i: int| 0 <= i < w0.len() ==> walks[i] == w0[i]);
+    lemma_fold_prefix(vx_tags, w0, walks, w0.len() as int);
+}
+after:
+proof { assert(event_verdict_ok(&self.0, event.path_tags@, walks, pass)); assert(event_passes_by_fold(&self.0, event.path_tags@, pass)); }
 //@ item IgnoreFilter::check_dir
 //@ header
 pub fn check_dir(&self, path: &PathS, env: &mut IEnv) -> (r: bool)
